@@ -596,6 +596,10 @@ def exp_h1_part(chk: Check, cases=None):
         field = np.diag(0.4 * (-1.0) ** np.arange(n) + 0.1 * rng.standard_normal(n))
         Ks = [K + field, K - field]
         hd2 = {"h0": 0.0, "h1": jnp.array(np.array(Ks)), "chol": jnp.zeros((1, n * n)), "ene0": 0.0, "u": c["U"]}
+        # (every other case: the dictionary was first prepared for a propagator with another time step, then prepared again)
+        if (c["seed"] + n) % 2 == 0:
+            prop0 = propagation.propagator_cpmc(dt=2.5 * c["dt"], n_walkers=4)
+            hd2 = hamiltonian.hamiltonian(n).build_propagation_intermediates(hd2, prop0, trial, wd)
         hd2 = hamiltonian.hamiltonian(n).build_propagation_intermediates(hd2, prop, trial, wd)
         got = np.asarray(hd2["exp_h1"])
         resid = float(max(np.max(np.abs(got[sp] - expm(-c["dt"] * Ks[sp] / 2.0))) for sp in (0, 1)))
